@@ -21,7 +21,7 @@ def plan(tier, seed):
 
 
 def thresholds(tier):
-  t = {"objects_roundtripped": 20000, "hierarchies": 400, "slice_objects": 500, "field_objects": 1000,
+  t = {"objects_roundtripped": 20000, "hierarchies": 400, "slice_objects": 500, "held_slice_handles_checked": 2000, "field_objects": 1000,
        "list_element_objects": 3000, "method_port_objects": 200, "interface_objects": 500, "reelaborations": 400, "lock_unlock_histories": 300, "list_construction_designs": 60, "fieldname_designs": 60}
   if tier == "thorough":
     t = {k: v * 12 for k, v in t.items()}
@@ -84,6 +84,7 @@ def gen_items(rng, depth, uid, in_ifc=False):
 class Table:
   def __init__(self):
     self.t = {}    # name -> dict(kind, parent, host, top_sig, level, field)
+    self.held = []  # (slice object the design was handed at construction time, its expected name)
 
   def add(self, name, kind, parent, host, top_sig=None, level=None, field=None):
     self.t[name] = {"kind": kind, "parent": parent, "host": host, "top_sig": top_sig, "level": level, "field": field}
@@ -112,7 +113,19 @@ def touch_signal(rng, sig, name, shape, host, tab, B):
           if k > 0.6 and hi - lo >= 2:     # slice of slice -> normalised, parent is the unsliced signal
             a = rng.randrange(hi - lo); b = rng.randrange(a + 1, hi - lo + 1)
             tab.add(snm, "slice", nm, host, top_name, field=snm[len(nm.rsplit('.', 1)[0]) + 1:])
+            outer = sl
             sl = sl[a:b]; snm = f"{nm}[{lo + a}:{lo + b}]"
+            tab.held.append((sl, snm))
+            # the same bits reached once more: directly, through the same outer slice, or through another enclosing slice
+            r2 = rng.random()
+            if r2 < 0.25: tab.held.append((obj[lo + a:lo + b], snm))
+            elif r2 < 0.5: tab.held.append((outer[a:b], snm))
+            elif r2 < 0.7:
+              lo2 = rng.randrange(0, lo + a + 1); hi2 = rng.randrange(lo + b, n + 1)
+              if (lo2, hi2) != (lo + a, lo + b):
+                tab.add(f"{nm}[{lo2}:{hi2}]", "slice", nm, host, top_name, field=f"{nm}[{lo2}:{hi2}]"[len(nm.rsplit('.', 1)[0]) + 1:])
+                tab.held.append((obj[lo2:hi2][lo + a - lo2:lo + b - lo2], snm))
+        tab.held.append((sl, snm))
         tab.add(snm, "slice", nm, host, top_name, field=snm[len(nm.rsplit('.', 1)[0]) + 1:])
       return
     # struct: touch some fields
@@ -283,6 +296,11 @@ def run_case(sh, case):
           sl = o._dsl.slice
           if f"[{sl.start}:{sl.stop}]" != r[r.rindex("["):]:
             W("slice-name-not-normalised", name=r, slice=[sl.start, sl.stop])
+    # every handle the construction code was given (and may have connected, or kept in a list) is THE object of its name
+    for (ho, hn) in tab.held:
+      sh.count("held_slice_handles_checked")
+      if names.get(hn) is not ho or repr(ho) != hn:
+        W("slice-handle-obtained-at-construction-is-not-the-object-its-name-evaluates-to", name=hn, handle_repr=repr(ho), name_in_hierarchy=hn in names); break
     missing = set(tab.t) - set(names)
     if missing:
       W("generator-object-missing-from-get_all_object_filter", names=sorted(missing)[:6])
